@@ -140,6 +140,7 @@ struct ReclAdapter : Adapter {
     if (g_destroyed) for (auto& kv : *g_destroyed) if (kv.second > 1) s += " " + std::to_string(kv.first) + ":x" + std::to_string(kv.second);
     out.push_back(s);
     out.push_back("created " + std::to_string(g_created) + " scratch_from " + std::to_string(first_scratch));
+    out.push_back("threadblocks " + std::to_string(xv::live_blocks_by_threads()));
   }
   bool check(const Case& c, const std::vector<OpRec>& h, const std::vector<std::string>& fin, std::string& why) override {
     for (auto& o : h) {
